@@ -296,10 +296,12 @@ def recvHeadersCount (s : Streams) (id : Nat) (h : HeadersIn) (isInitial : Bool)
 def recvHeadersCl (s : Streams) (id : Nat) (h : HeadersIn) : Streams × Option PErr :=
   if (s.stream id).contentLength != .head then
     match h.fields.find? (fun f => f.1 == Http.str "content-length") with
-    | some (_, v :: _) =>
+    | some (_, v :: rest) =>
       match parseU64 v with
       | none => (s, some (PErr.libraryReset (s.stream id).id PROTOCOL_ERROR))
       | some cl =>
+        if rest.any (fun o => parseU64 o != some cl) then (s, some (PErr.libraryReset (s.stream id).id PROTOCOL_ERROR))
+        else
         let s := s.modStream id fun st => { st with contentLength := .remaining cl }
         let statusNot204304 := match h.status with
           | some st => st != Http.str "204" && st != Http.str "304"
